@@ -13,7 +13,7 @@ PROPS = {
         kani=['tile_converter'],
         not_decided=[
             'the external codecs themselves (flate2 read adapters, brotli stream functions): assumed inverse pairs; the five wrapper functions around them are verified against the assumed clauses in unit codec_wrappers',
-            'TileConverter::process_stream / map_blob_parallel (C14): assumed to apply the pipeline to every blob',
+            'TileStream::map_blob_parallel (C14): assumed to apply the callback to every blob of the stream (the callback of TileConverter::process_stream is under contract: compression::stream_item; assumption A-convstream-1: a codec step inside the stream does not fail)',
             'metadata compression lines of the versatiles / pmtiles writers (inside async writer bodies)',
         ],
     ),
